@@ -27,7 +27,9 @@ Definition fnid := N.
 Definition time_name : name := 0%N.
 Definition env := list (name * Z).
 
-Inductive err := EKey | EValue | EIndex | ENonFinite.
+(** [EShape]: the source has a shape the model does not know ([VKUnknown]); the harness never reports it,
+    so it is equal to no observed outcome *)
+Inductive err := EKey | EValue | EIndex | ENonFinite | EShape.
 Inductive res (A : Type) := Ok (a : A) | Err (e : err).
 Arguments Ok {A} a.
 Arguments Err {A} e.
@@ -383,6 +385,15 @@ Section Sem.
       first segment's parameters at the model's initial state); [PKRows] = the repaired bodies
       (fixes/C10-prodcons-per-segment.diff: coefficient evaluated on every reported row) *)
   Inductive prod_kind := PKFirst | PKRows | PKUnknown.
+  (** what a model-evaluating view does to the parameter values of the SHARED model:
+      [VKRestores]   (since /repo 4167248) [_compute_args] and [get_right_hand_side] remember the values in
+                     force ([_parameters_in_force()]), re-apply each segment's parameters inside [try:] and put
+                     back what they found in [finally:]; [_get_fluxes_by_sign] has no trailing
+                     [update_parameters(self.raw_parameters[-1])];
+      [VKLeavesLast] the bodies before that commit: nothing is put back, the model is left at the LAST
+                     segment's parameters (a read undid a user's update_parameter);
+      [VKUnknown]    any other shape: the views that go through the mechanism answer [EShape]. *)
+  Inductive view_kind := VKRestores | VKLeavesLast | VKUnknown.
   Record res_facts := mkResFacts {
     rf_norm_rows : norm_rows_kind;   (* per-row branch of _normalise_split_results *)
     rf_fill_guard : bool;            (* _compute_args: `if len(self.raw_args) > 0: return self.raw_args` *)
@@ -391,7 +402,8 @@ Section Sem.
     rf_prod : prod_kind;             (* which bodies get_producers / get_consumers have *)
     rf_select_adjust_shape : bool;   (* _select_data / _adjust_data / scalar + per-segment branches *)
     rf_views_shape : bool;           (* get_args/get_variables/get_fluxes/get_combined/get_new_y0/properties *)
-    rf_model_shape : bool            (* model.py: update_parameter(s), get_arg_names, rhs time course, stoichiometries *)
+    rf_model_shape : bool;           (* model.py: update_parameter(s), get_arg_names, rhs time course, stoichiometries *)
+    rf_view : view_kind              (* do the views put the model's parameter values back? *)
   }.
 
   Record simres := mkRes { r_segs : list seg; r_pars : list env }.
@@ -517,10 +529,23 @@ Section Sem.
 
   Definition nonempty {A} (l : list A) : bool := match l with [] => false | _ => true end.
 
+  (** [finally: self.model.update_parameters(in_force)] -- [in_force] lists every parameter of the model
+      with the value found on entry, so the call cannot fail; nothing is put back by the old bodies *)
+  Definition put_back (fx : res_facts) (in_force cur : env) : env :=
+    match rf_view fx with
+    | VKRestores => fst (apply_params in_force cur)
+    | _ => cur
+    end.
+
   Definition compute_args (fx : res_facts) (m : model) (r : simres) (st : state)
     : res (list (frame Z)) * state :=
-    if rf_fill_guard fx && nonempty (s_raw st) then (Ok (s_raw st), st)
-    else fill fx m (r_segs r) (r_pars r) st.
+    match rf_view fx with
+    | VKUnknown => (Err EShape, st)
+    | _ =>
+        if rf_fill_guard fx && nonempty (s_raw st) then (Ok (s_raw st), st)
+        else let '(ra, st1) := fill fx m (r_segs r) (r_pars r) st in      (* try: ... *)
+             (ra, mkSt (put_back fx (s_cur st) (s_cur st1)) (s_raw st1))   (* finally: put back, also on error *)
+    end.
 
   (** [_select_data(self._compute_args(), flags)] then [_adjust_data] *)
   Definition view_selected (fx : res_facts) (m : model) (r : simres) (f : flags) (n : norm) (conc : bool)
@@ -572,9 +597,10 @@ Section Sem.
     match ra with
     | Err e => (VErr e, st1)
     | Ok tbs =>
+        (* in_force = the values found after _compute_args; try: the loop; finally: put back *)
         match rhs_loop fx m tbs (r_pars r) (s_cur st1) with
-        | (Err e, c2) => (VErr e, mkSt c2 (s_raw st1))
-        | (Ok fs, c2) => (adjust fx (map qframe fs) n conc, mkSt c2 (s_raw st1))
+        | (Err e, c2) => (VErr e, mkSt (put_back fx (s_cur st1) c2) (s_raw st1))
+        | (Ok fs, c2) => (adjust fx (map qframe fs) n conc, mkSt (put_back fx (s_cur st1) c2) (s_raw st1))
         end
     end.
 
@@ -705,6 +731,27 @@ Section Sem.
     | f :: _ => Ok (mkFrame (concat (map f_idx data)) (f_cols f) (concat (map f_rows data)))
     end.
 
+  (** the end of [_get_fluxes_by_sign]: the old bodies ([VKLeavesLast]) re-apply the LAST segment's
+      parameters before answering; the current ones answer at once *)
+  Definition prodcons_tail (fx : res_facts) (r : simres) (ml : list (frame (option Q))) (conc : bool) (st2 : state)
+    : out * state :=
+    let answer st3 := if conc then match mconcat0 ml with
+                                   | Ok f => (VMFrame f, st3)
+                                   | Err e => (VErr e, st3)
+                                   end
+                      else (VMFrames ml, st3) in
+    match rf_view fx with
+    | VKLeavesLast =>
+        match r_pars r with
+        | [] => (VErr EIndex, st2)           (* self.raw_parameters[-1] *)
+        | _ =>
+            let '(cur3, ok3) := apply_params (last (r_pars r) []) (s_cur st2) in
+            let st3 := mkSt cur3 (s_raw st2) in
+            if negb ok3 then (VErr EKey, st3) else answer st3
+        end
+    | _ => answer st2
+    end.
+
   Definition view_prodcons_rows (fx : res_facts) (m : model) (r : simres) (neg : bool) (v : name)
              (scaled : bool) (n : norm) (conc : bool) (st : state) : out * state :=
     match factors_of m v with
@@ -723,19 +770,7 @@ Section Sem.
                 | VFrames fl =>
                     match mask_all scaled kp fl coefs with
                     | Err e => (VErr e, st2)
-                    | Ok ml =>
-                        match r_pars r with
-                        | [] => (VErr EIndex, st2)           (* self.raw_parameters[-1] *)
-                        | _ =>
-                            let '(cur3, ok3) := apply_params (last (r_pars r) []) (s_cur st2) in
-                            let st3 := mkSt cur3 (s_raw st2) in
-                            if negb ok3 then (VErr EKey, st3)
-                            else if conc then match mconcat0 ml with
-                                              | Ok f => (VMFrame f, st3)
-                                              | Err e => (VErr e, st3)
-                                              end
-                                 else (VMFrames ml, st3)
-                        end
+                    | Ok ml => prodcons_tail fx r ml conc st2
                     end
                 | VErr e => (VErr e, st2)
                 | _ => (VErr EValue, st2)
@@ -812,7 +847,7 @@ End Sem.
 
 Definition err_eqb (a b : err) : bool :=
   match a, b with
-  | EKey, EKey | EValue, EValue | EIndex, EIndex | ENonFinite, ENonFinite => true
+  | EKey, EKey | EValue, EValue | EIndex, EIndex | ENonFinite, ENonFinite => true   (* EShape equals nothing *)
   | _, _ => false
   end.
 Definition frame_eqb (a b : frame Q) : bool :=
